@@ -154,9 +154,23 @@ def run_histories(jobs):
                     a, o, i = ev["a"], ev["o"], ev["id"]
                     if other is not None and evno > 0 and h[evno - 1]["a"] == "register":
                         other.close()
+                        for k in (1, 2):
+                            other.unregister("was-here-%d" % k)     # (it keeps nothing of what has moved on)
                         other = None
                     # the serializer changes from step to step (what one of them does to an object must not show under another)
                     ser = SERS[(SERS.index(base_ser) + evno) % len(SERS)] if rotate else base_ser
+                    hand = a == "register" and other is not None and jobno % 6 == 4 and o in (1, 2) and o in objs
+                    if hand:
+                        # a hand-over: the object was at home in the other daemon first; it is registered here next, and the other
+                        # daemon is closed after that - what it does when it closes is none of this daemon's objects' business
+                        other.register(objs[o], "was-here-%d" % o, force=True)
+                    knock = a == "register" and jobno % 2 == 0 and o in (1, 2) and o in objs and evno > 0
+                    if knock:
+                        # the application had its own way of writing objects of this class for a while and has withdrawn it again,
+                        # before it registers one more object of the class here
+                        from Pyro5 import serializers as _sz
+                        _sz.SerializerBase.register_class_to_dict(type(objs[o]), lambda x: {"__class__": "harness.Thing", "n": 0})
+                        _sz.SerializerBase.unregister_class_to_dict(type(objs[o]))
                     if a == "register":
                         if i == "gen":
                             out, uri = outcome(lambda: d.register(objs[o], None, force=False, weak=ev["weak"]))
@@ -174,6 +188,16 @@ def run_histories(jobs):
                             if (o == 4 or i in BAD_IDS) and out not in ("ok", "TypeError"):
                                 out = "error"       # refused: which exception says so is not prescribed
                             tr.append(dict(ev, out=out.split(":")[0], gotid="", daemon_kept=kept()))
+                    if knock and tr[-1].get("out") != "ok":
+                        # (refused: the registration that was to follow the withdrawal is made with a throw-away object instead)
+                        tmp = type(objs[o])(77)
+                        d.register(tmp, "throw-away")
+                        d.unregister("throw-away")
+                        del tmp
+                    if hand and tr[-1].get("out") != "ok":
+                        other.unregister("was-here-%d" % o)      # (it was refused here: it stays nowhere)
+                    if a == "register":
+                        pass
                     elif a == "unregister_id":
                         out, _ = outcome(lambda: d.unregister(real_id(i)))
                         tr.append(dict(ev, out=out.split(":")[0], daemon_kept=kept()))
